@@ -102,6 +102,18 @@ func (parEngine) generate(property string, seed int64, index int, tier string) *
 		// the natural-looking schedule: always the lowest ordinal
 		pc.Tape = nil
 	}
+	if r.Chance(1, 12) {
+		// system-level corollary: a whole command at 1 CPU and at n CPUs
+		cmds := [][]string{{"print"}, {"print", "--with-totals"}, {"total"}, {"total", "--diff"}, {"json"}, {"json", "--pretty"}, {"tags"}, {"today"},
+			{"report"}, {"report", "--aggregate=week"}, {"track", "1h #x"}, {"start", "--time=9:00"}, {"stop", "--time=23:00"}, {"create", "--date=2024-03-13"}}
+		pc.Cmd = cmds[r.Intn(len(cmds))]
+		if pc.Workers > 40 {
+			pc.Workers = r.Range(2, 40)
+		}
+		if pc.Workers < 2 {
+			pc.Workers = 2
+		}
+	}
 	pc.setText(text)
 	return &Scenario{Format: 1, Property: property, Engine: "par", Seed: seed, Index: index, Tier: tier, Par: pc}
 }
@@ -276,7 +288,10 @@ func parExecuteCmd(sc *Scenario, out *Outcome) *Outcome {
 	_ = os.WriteFile(file, []byte(pc.text()), 0o644)
 	_ = os.MkdirAll(filepath.Join(root, "cfg"), 0o755)
 	argv := append(append([]string{}, pc.Cmd...), file)
+	after := map[int]string{}
 	run := func(cpus int, tape []int) ProcResult {
+		_ = os.WriteFile(file, []byte(pc.text()), 0o644)
+		defer func() { b, _ := os.ReadFile(file); after[cpus] = string(b) }()
 		return runProc(&ProcSpec{Argv: argv, Tape: tape, Cpus: cpus, Root: root,
 			Base: time.Date(2024, 3, 15, 12, 0, 0, 0, time.UTC),
 			Env:  map[string]string{"KLOG_CONFIG_HOME": filepath.Join(root, "cfg"), "NO_COLOR": "1"}})
@@ -295,6 +310,9 @@ func parExecuteCmd(sc *Scenario, out *Outcome) *Outcome {
 		out.Foreign = append(out.Foreign, mkVerdict("C06", "panic", a.PanicSite, a.PanicValue, 0))
 	case a.Crashed != b.Crashed:
 		out.Verdicts = append(out.Verdicts, mkVerdict("C07", "panic", b.PanicSite+a.PanicSite, fmt.Sprintf("1 cpu crashed=%v (%s), %d cpus crashed=%v (%s)", a.Crashed, a.PanicValue, pc.Workers, b.Crashed, b.PanicValue), 0))
+	case after[1] != after[pc.Workers]:
+		out.Verdicts = append(out.Verdicts, mkVerdict("C07", "command-file-differs", site,
+			fmt.Sprintf("file after the command: 1cpu=%q kcpu=%q", shortText(after[1], 300), shortText(after[pc.Workers], 300)), 0))
 	case a.ExitCode != b.ExitCode || a.Stdout != b.Stdout:
 		out.Verdicts = append(out.Verdicts, mkVerdict("C07", "command-differs", site,
 			fmt.Sprintf("exit %d vs %d; stdout 1cpu=%q kcpu=%q", a.ExitCode, b.ExitCode, shortText(a.Stdout, 300), shortText(b.Stdout, 300)), 0))
